@@ -25,7 +25,7 @@ def suite(tag):
     ok = set()
     for tc in ET.parse(xml).getroot().iter("testcase"):
         if not any(ch.tag in ("failure", "error", "skipped") for ch in tc):
-            ok.add(f"{tc.get('classname')}::{tc.get('name')}")
+            ok.add(f"{tc.get('classname')}::{tc.get('name')}".replace(wt, "<wt>"))
     os.remove(xml)
     return ok
 
